@@ -342,7 +342,7 @@ func TestCheck(t *testing.T) {
 			caps = append(caps, "deadline reached before kv-executor pattern "+pt)
 			break
 		}
-		st := explore.Explore(explore.Config{Budgets: kvBudgets, Deadline: left}, func(c *explore.Ctx) {
+		st := explore.Explore(explore.Config{Budgets: kvBudgets, Deadline: left, ShardDepth: 2}, func(c *explore.Ctx) {
 			o := kvBody(t, c, pc)
 			if o.fail != nil {
 				r.Report(vf.Violation{Clause: o.fail.Clause, Tags: o.tags, Msg: fmt.Sprintf("[real KVExecutor, chain %q (first letter = block at the initial height)] %s\n trace: %s", pt, o.fail.Msg, strings.Join(o.trace, " ")), Cost: len(o.trace), History: map[string]any{"Pattern": pt, "KV": true, "Choices": c.Choices()}})
@@ -377,7 +377,7 @@ func TestCheck(t *testing.T) {
 			caps = append(caps, "deadline reached before pattern "+pt)
 			break
 		}
-		st := explore.Explore(explore.Config{Budgets: budgets, Deadline: left}, func(c *explore.Ctx) {
+		st := explore.Explore(explore.Config{Budgets: budgets, Deadline: left, ShardDepth: 2}, func(c *explore.Ctx) {
 			o := body(t, c, pc)
 			if o.fail != nil {
 				r.Report(vf.Violation{Clause: o.fail.Clause, Tags: o.tags, Msg: fmt.Sprintf("%s\n chain: genesis+%q\n trace: %s", o.fail.Msg, pt, strings.Join(o.trace, " ")), Cost: len(o.trace), History: map[string]any{"Pattern": pt, "Choices": c.Choices()}})
@@ -412,7 +412,7 @@ func TestCheck(t *testing.T) {
 			caps = append(caps, "deadline reached before ingress pattern "+pt)
 			break
 		}
-		st := explore.Explore(explore.Config{Budgets: l2budgets, Deadline: left}, func(c *explore.Ctx) {
+		st := explore.Explore(explore.Config{Budgets: l2budgets, Deadline: left, ShardDepth: 2}, func(c *explore.Ctx) {
 			o := ingressBody(t, c, pc)
 			if o.fail != nil {
 				r.Report(vf.Violation{Clause: o.fail.Clause, Tags: append(o.tags, "ingress-level"), Msg: fmt.Sprintf("[ingress level, chain genesis+%q] %s\n %s", pt, o.fail.Msg, strings.Join(o.trace, " ")), Cost: c.Cost(), History: map[string]any{"Pattern": pt, "Ingress": true, "Choices": c.Choices()}})
